@@ -15,7 +15,7 @@ from ..profile import Profile, agg_add, gen_record, gen_size, gen_periods, gen_f
 from . import c04 as c04mod
 from .c04 import nd, MUT_SIG, MUT_ACC, KOPS, _cls_name
 
-BUF_KINDS = ["f8", "f8", "f8", "f4", "i8", "list", "tuple", "view", "view_strided", "view_readonly", "f8_2d", "list_of_arrays"]
+BUF_KINDS = ["f8", "f8", "f8", "f4", "i8", "list", "tuple", "view", "view_strided", "view_readonly", "subclass", "array_wrapper", "f8_2d", "list_of_arrays"]
 ROUTES = ["Signal()", "AccSignal()", "Cluster()", "reset_values", "time_match"]
 INPLACE = ["running_average", "remove_rolling_average:acc", "remove_rolling_average:velocity", "rebase_displacement",
            "set_zero_residual_velocity:none", "set_zero_residual_velocity:tz", "set_zero_residual_velocity:tz_open",
@@ -190,13 +190,35 @@ TABLE = _mk_table()
 HIDDEN_STATE = {"im.calc_sir", "im.calc_acc_rms", "stockwell.get_max_stockwell_freq"}
 
 
-SRC_KINDS = ["f8", "f4", "i8", "list", "tuple", "view", "view_strided", "view_readonly", "f8_2d:row", "object.values"]
+SRC_KINDS = ["f8", "f4", "i8", "list", "tuple", "view", "view_strided", "view_readonly", "subclass", "array_wrapper", "f8_2d:row", "object.values"]
 SWEEP_ROUTES = ["Signal()", "AccSignal()", "Cluster()", "reset_values:Signal", "reset_values:AccSignal"]
 FOLLOW = ["caller-write"] + ["inplace:" + m for m in INPLACE] + ["mut:add_constant", "mut:remove_poly", "mut:butter_pass:low"]
 SWEEP_OWN = [(k, r, f) for k in SRC_KINDS for r in SWEEP_ROUTES for f in FOLLOW]
 REC_KINDS = ["f8", "f4", "i8", "list", "tuple", "view", "view_strided", "view_readonly", "object.values"]
 SWEEP_PURE = [(name, k) for name in sorted(TABLE) for k in REC_KINDS]
 N_SWEEP = len(SWEEP_OWN) + len(SWEEP_PURE)
+
+
+class _SubArray(np.ndarray):
+    """A trivial ndarray subclass (what np.memmap, np.matrix, record and masked arrays are to the library)."""
+
+
+class _ArrayWrapper(object):
+    """Something array_like that is not an ndarray: it hands out its array through __array__ (without copying)."""
+
+    def __init__(self, arr):
+        self.arr = arr
+
+    def __array__(self, dtype=None, copy=None):
+        # the NumPy 2 protocol: copy=True obliges the object to copy, copy=None / False hand out the array itself
+        a = self.arr if dtype is None else self.arr.astype(dtype, copy=False)
+        return a.copy() if (copy is True and a is self.arr) else a
+
+    def __len__(self):
+        return len(self.arr)
+
+    def __getitem__(self, i):
+        return self.arr[i]
 
 
 class World(object):
@@ -263,6 +285,8 @@ def _scribble(v, inputs):
 
 
 def _copy_buf(b):
+    if isinstance(b, _ArrayWrapper):
+        return np.array(b.arr, copy=True)
     if isinstance(b, np.ndarray):
         return np.array(b, copy=True)
     return copy.deepcopy(b)
@@ -430,7 +454,13 @@ class C05(Profile):
         if k == "buf":
             kind = op["kind"]
             data = codec.dec(op["data"])
-            if kind in ("view", "view_strided", "view_readonly"):
+            if kind in ("subclass", "array_wrapper"):
+                base = np.array(data, dtype=float)
+                world.bufs[op["b"] + "^"] = base
+                world.kind[op["b"] + "^"] = "f8"
+                world.bufs[op["b"]] = base.view(_SubArray) if kind == "subclass" else _ArrayWrapper(base)
+                world.bases[op["b"]] = op["b"] + "^"
+            elif kind in ("view", "view_strided", "view_readonly"):
                 base = np.array(data, dtype=float)
                 world.bufs[op["b"] + "^"] = base
                 world.kind[op["b"] + "^"] = "f8"
@@ -448,6 +478,8 @@ class C05(Profile):
             v = world.objs[op["p"]].values
             if not isinstance(v, np.ndarray):
                 raise TypeError("values is not an array")
+            if "slice" in op:
+                v = v[op["slice"][0]:op["slice"][1]]      # ... or to a window of it
             world.bufs[op["b"]] = v            # the caller keeps a reference to the array that .values handed out
             world.kind[op["b"]] = "grabbed"
             world.alias[op["b"]] = op["p"]
@@ -459,6 +491,8 @@ class C05(Profile):
                 base = world.bufs[world.bases[op["b"]]]
                 off = op.get("off_in_base", 0)
                 b = base[off:off + len(b)]            # the same memory, through the caller's own writable array
+            elif world.kind.get(op["b"]) in ("subclass", "array_wrapper"):
+                b = world.bufs[world.bases[op["b"]]]
             if how == "row":
                 b[op["i"]] *= op["v"]       # the caller scales one of the arrays in its own list
             elif isinstance(b, np.ndarray):
@@ -663,6 +697,13 @@ class C05(Profile):
         if not out.ok:
             agg_add(st["outcomes"], out.exc)
         self._coverage(world, op, out, kind)
+        if op["op"] == "reset" and out.ok:
+            # an explicit replacement of the values ends every claim the object had on arrays it handed out before
+            for b, p in list(world.alias.items()):
+                if p == op["p"]:
+                    del world.alias[b]
+                    world.origin_of_grab = getattr(world, "origin_of_grab", {})
+                    world.origin_of_grab[b] = p
         viol = self._check(world, op, out, step, kind, fkind)
         self._end_aliases(world)
         if viol is None:
@@ -815,7 +856,8 @@ class C05(Profile):
         def walk(x):
             if isinstance(x, dict):
                 if "ref" in x:
-                    parts.append("B:" + codec.digest(self._res(world, x)))
+                    b = self._res(world, x)
+                    parts.append("B:" + codec.digest(np.asarray(b.arr) if isinstance(b, _ArrayWrapper) else b))
                 elif "vals" in x:
                     parts.append("V:" + codec.digest(np.asarray(world.objs[x["vals"]].values)))
                 elif "obj" in x:
@@ -886,7 +928,8 @@ class C05(Profile):
                 world.snap_b[name] = _copy_buf(b)
                 continue
             st["buffer_checks"] += 1
-            if not bytes_equal(b, world.snap_b[name]):
+            if not bytes_equal(np.asarray(b.arr) if isinstance(b, _ArrayWrapper) else
+                               (np.asarray(b) if isinstance(b, _SubArray) else b), world.snap_b[name]):
                 return dict(base, invariant="I1:caller-buffer-unchanged", cls=None, victim=name,
                             victim_kind="buffer:" + world.kind.get(name.rstrip("^"), "?"),
                             what="caller buffer %s (%s) was modified by %s, which has no right to write it"
@@ -1162,7 +1205,7 @@ class Gen(object):
         self.nb += 1
         vals = gen_record(rng, n)
         op = {"op": "buf", "b": name, "kind": kind}
-        if kind == "f8":
+        if kind in ("f8", "subclass", "array_wrapper"):
             op["data"] = nd(vals)
         elif kind == "f4":
             op["data"] = nd(vals, "f4")
@@ -1317,6 +1360,11 @@ class Gen(object):
         if not objs:
             return None
         p = rng.choice(objs)
+        held = sorted(b for b, q in world.alias.items() if q in world.objs)
+        if held and rng.random() < 0.3:
+            # trimming: a window of the object's own array is given back to it as its new values
+            b = rng.choice(held)
+            return {"op": "reset", "p": world.alias[b], "src": {"ref": b}}
         released = [b for b, q in getattr(world, "origin_of_grab", {}).items() if b in world.bufs and b not in world.alias]
         if released and rng.random() < 0.5:
             # the undo pattern: an array the object handed out earlier and has replaced since is given back to it
@@ -1430,7 +1478,12 @@ class Gen(object):
             if isinstance(world.objs[p].values, np.ndarray) and world.objs[p].values.dtype == np.float64 and self.nb < 10:
                 name = "B%d" % self.nb
                 self.nb += 1
-                return {"op": "grab", "b": name, "p": p}
+                op = {"op": "grab", "b": name, "p": p}
+                n = len(world.objs[p].values)
+                if n >= 4 and rng.random() < 0.4:
+                    a = rng.randint(0, n // 2)
+                    op["slice"] = [a, rng.randint(a + 2, n)]
+                return op
         if r < 0.10:
             return self.g_buf() if self.nb < 6 else self.g_write(world)
         if r < 0.30:
@@ -1551,7 +1604,7 @@ class Gen(object):
         if self.force_rec is not None:
             fr = self.force_rec
             kd = world.kind.get(fr.get("ref"), "f8") if "ref" in fr else "f8"
-            if (nd_only and kd in ("list", "tuple")) or (float_only and kd == "i8"):
+            if (nd_only and kd in ("list", "tuple", "array_wrapper")) or (float_only and kd == "i8"):
                 raise _Skip()
             ln = len(self.profile._res(world, fr))
             if ln > max_n or ln < min_n:
@@ -1562,7 +1615,7 @@ class Gen(object):
             kd = world.kind[b]
             if len(world.bufs[b]) > max_n:
                 continue
-            if nd_only and kd in ("list", "tuple"):
+            if nd_only and kd in ("list", "tuple", "array_wrapper"):
                 continue
             if float_only and kd in ("i8",):
                 continue
